@@ -89,7 +89,9 @@ def gen_diagram(ints, with_callables=False):
         names = []
         have = set(a['name'] for a in D['classes'][ci]['attrs'])
         for tn in D['classes'][to_ci]['ids'][oid]:
-            nm = '%s_%s' % (tag, tn)
+            # referential attributes are named independently of what they refer to (BridgePoint lets the modeller
+            # rename them), so their alphabetical order need not follow that of the identifying attributes
+            nm = '%s%s_%s' % (t.choice(['', 'zz', 'aa', 'Mm']), tag, tn) if t.flag() else '%s_%s' % (tag, tn)
             while nm in have:
                 nm += 'x'
             have.add(nm)
@@ -145,7 +147,7 @@ def gen_diagram(ints, with_callables=False):
 
 # -- edit scripts -----------------------------------------------------------------------------------------------------
 
-EDITS = ['rename-attr', 'retype-attr', 'reorder-attrs', 'toggle-mult', 'toggle-cond', 'change-phrase', 'add-enumerator',
+EDITS = ['rename-ref-attr', 'rename-attr', 'retype-attr', 'reorder-attrs', 'toggle-mult', 'toggle-cond', 'change-phrase', 'add-enumerator',
          'reorder-enumerators', 'add-udt', 'move-class', 'add-derived', 'remove-derived', 'add-attr', 'add-unsupported']
 
 
@@ -158,6 +160,25 @@ def apply_edit(D, t):
     ci = t.pick(len(classes))
     c = classes[ci]
     plain = [a for a in c['attrs'] if not a.get('ref')]
+    if kind == 'rename-ref-attr':
+        refs = [a for a in c['attrs'] if a.get('ref')]
+        if not refs:
+            return None
+        a = t.choice(refs)
+        old = a['name']
+        new = t.choice(['Aa_', 'Zz_', 'To_', 'K']) + old
+        if any(x['name'] == new for x in c['attrs']):
+            return None
+        a['name'] = new
+        c['ids'] = [[new if n == old else n for n in i] for i in c['ids']]
+        for r in D['rels']:
+            for key in ('refs', 'one_refs', 'oth_refs'):
+                if key in r and (r.get('form') == ci or r.get('link') == ci):
+                    r[key] = [new if n == old else n for n in r[key]]
+            for sub in r.get('subs', []):
+                if sub['cls'] == ci:
+                    sub['refs'] = [new if n == old else n for n in sub['refs']]
+        return 'rename referential %s.%s' % (c['kl'], old)
     if kind == 'rename-attr' and plain:
         a = t.choice(plain)
         old, new = a['name'], a['name'] + '_rn'
